@@ -104,6 +104,8 @@ Bodies == /\ Live("bodies")
                         ELSE <<>>)
                     \o (IF ClientMode /\ Tapped /\ Is(s.respHead) /\ ~EncRefused(s.stim) /\ ~LimitHit(s.stim) THEN
                            ResponseClauses(s.stim, s.respHead.status, s.respHead.list, E.resp.bytes, E.resp.frames, s.respTrs, off)
+                           \* a trailers-only response is body-less: its body is at its end before it is ever polled (no DATA frame, not even an empty one)
+                           \o << <<"C03.TrailersOnlyIsBodyless", (E.resp.bytes = <<>> /\ s.respTrs = <<>> /\ Has(s.respHead, "eos")) => s.respHead.eos>> >>
                         ELSE <<>>)
                     \o (IF ~ClientMode /\ Is(s.respHead) /\ Is(s.rawSent) THEN
                            RawClauses(s.stim, s.rawSent, s.respHead.status, s.respHead.list, E.resp.bytes, E.resp.frames, s.respTrs, s.srv)
